@@ -12,6 +12,10 @@ Lemma combiner_slot_before_reserve_src : Combiner_slot_before_reserve = true.
 Proof. reflexivity. Qed.
 Lemma splitter_slot_before_get_src : Splitter_slot_before_get = true.
 Proof. reflexivity. Qed.
+(* ... and Machine.behaviour consults its in-edge policy (self._get_in_edge_index()) only after the slot request: the policy is
+   evaluated when it is acted upon (the model's machine_block draws at pc 2, the block that runs once the slot is granted) *)
+Lemma machine_slot_before_index_draw_src : Machine_slot_before_index_draw = true.
+Proof. reflexivity. Qed.
 
 (* Combiner.behaviour's reservation loop: `for edge_idx in range(1, len(self.in_edges))` reads
    `self.target_quantity_of_each_item[edge_idx]` -- the model's [combiner_reserve] walks the in-edges from
